@@ -84,7 +84,30 @@ func genPositionsWalk(r *rand.Rand, n int) []Step {
 	nextLev, nextPerp := 1, 1
 	for i := 0; i < n; i++ {
 		u := pick(r, users...)
-		switch r.Intn(16) {
+		switch r.Intn(17) {
+		case 16: // stress: the market moves against the usual leverage until positions sit around the safety factor, nobody liquidates,
+			// and the OWNERS act on them (tiny top-ups with leverage 0, consolidating re-opens, partial closes); then the market recovers
+			down := r.Intn(2) == 0
+			mul, back := pick(r, "0.815", "0.83", "0.84", "0.85"), "1.2"
+			if !down {
+				mul, back = pick(r, "1.16", "1.17", "1.18", "1.2"), "0.85"
+			}
+			st = append(st, Step{"a": "feed", "asset": "ATOM", "mul": mul}, Step{"a": "block", "dt": float64(5)})
+			for k := 0; k < 2+r.Intn(3); k++ {
+				w := pick(r, users...)
+				switch r.Intn(4) {
+				case 0, 1:
+					st = append(st, Step{"a": "perpOpen", "u": w, "p": float64(1), "side": map[bool]string{true: "long", false: "short"}[down], "coll": "uusdc",
+						"sz": pick(r, "one", "1000", "20000", "s1"), "lev": pick(r, "0", "0", "2")})
+					nextPerp++
+				case 2:
+					st = append(st, Step{"a": "perpClose", "u": w, "id": float64(1 + r.Intn(nextPerp)), "frac": pick(r, "one", "third", "half")})
+				case 3:
+					st = append(st, Step{"a": "levOpen", "u": w, "p": float64(1), "sz": pick(r, "one", "1000", "s1"), "lev": pick(r, "1.5", "2", "9")})
+					nextLev++
+				}
+			}
+			st = append(st, Step{"a": "block", "dt": float64(5)}, Step{"a": "feed", "asset": "ATOM", "mul": back})
 		case 0, 1:
 			st = append(st, Step{"a": "levOpen", "u": u, "p": float64(1), "sz": pick(r, "s1", "s2", "1000000"), "lev": pick(r, "1.5", "2", "5", "9")})
 			nextLev++
